@@ -58,9 +58,53 @@ type Case struct {
 	// take text: "" as json.Marshal writes it, "escaped" every string and member
 	// name as \uXXXX escapes (surrogate pairs above the basic plane, which is
 	// how ASCII-only encoders write them), "spaced" with blanks and line breaks
-	// between all tokens, "raw" compact with nothing escaped that need not be. With a form the header notes hold characters outside
+	// between all tokens, "raw" compact with nothing escaped that need not be, "dup-null" as written
+	// but with one member of the document repeated with the value null (what
+	// is read then differs from what was signed). With a form the header notes hold characters outside
 	// the basic plane before the history starts.
 	Text string `json:"text,omitempty"`
+}
+
+// dupNull appends a second, null occurrence of a member the document has to
+// the document of a compactly serialised envelope.
+func dupNull(data []byte) ([]byte, string, bool) {
+	var env map[string]json.RawMessage
+	if err := json.Unmarshal(data, &env); err != nil {
+		return nil, "", false
+	}
+	var doc map[string]json.RawMessage
+	raw := bytes.TrimSpace(env["doc"])
+	if err := json.Unmarshal(raw, &doc); err != nil || len(raw) < 2 || raw[len(raw)-1] != '}' {
+		return nil, "", false
+	}
+	for _, m := range []string{"payment", "notes", "ordering", "delivery", "discounts", "charges", "preceding", "customer", "meta"} {
+		if v, ok := doc[m]; ok && string(v) != "null" {
+			nd := append(append([]byte{}, raw[:len(raw)-1]...), []byte(`,"`+m+`":null}`)...)
+			var sb bytes.Buffer
+			sb.WriteByte('{')
+			first := true
+			for _, k := range []string{"$schema", "head", "doc", "sigs"} {
+				v, ok := env[k]
+				if !ok {
+					continue
+				}
+				if k == "doc" {
+					v = nd
+				}
+				if !first {
+					sb.WriteByte(',')
+				}
+				first = false
+				kb, _ := json.Marshal(k)
+				sb.Write(kb)
+				sb.WriteByte(':')
+				sb.Write(v)
+			}
+			sb.WriteByte('}')
+			return sb.Bytes(), m, true
+		}
+	}
+	return nil, "", false
 }
 
 // rewrite serialises the same JSON value in another textual form.
@@ -596,6 +640,12 @@ func judge(c Case, o *vh.Obs) {
 	}
 	// (2) command-line paths additionally require the envelope to validate
 	valid := env.Validate() == nil
+	if digestStale && valid {
+		// the digest in the header is the one link between the signed header and
+		// the document: a document edited without recalculation must not validate
+		o.Failf("validate:accepted-stale-digest", "Envelope.Validate accepts an envelope whose document was edited after its digest was taken (%s)", describe(c))
+		return
+	}
 	if digestStale {
 		// edited without recalculation: whatever Validate says, the text entry
 		// points must not report success for this document
@@ -610,7 +660,28 @@ func judge(c Case, o *vh.Obs) {
 		o.Failf("marshal", "%v", err)
 		return
 	}
-	if c.Text != "" {
+	if c.Text == "dup-null" {
+		// the text as signed, with one member of the document written a second
+		// time as null: the last occurrence wins when it is read, so the document
+		// that was read lacks something the signer signed, while a canonical form
+		// taken from the text itself would not show it
+		nd, member, ok := dupNull(data)
+		if digestStale {
+			// the null could undo the very edit that made the digest stale
+			ok = false
+		}
+		if !ok {
+			o.Class("dup-null:no-member")
+			o.Discard()
+			return
+		}
+		data = nd
+		if expectCLI {
+			o.NonTrivial()
+		}
+		expectCLI = false
+		why = "member " + member + " of the signed document is overridden by a second, null occurrence"
+	} else if c.Text != "" {
 		if data, err = rewrite(data, c.Text); err != nil {
 			o.Failf("harness:rewrite", "%v", err)
 			return
@@ -808,7 +879,7 @@ func genCase(t *rapid.T) Case {
 	if rapid.IntRange(0, 4).Draw(t, "keyform") == 0 {
 		c.PresentForm = "no-kid"
 	}
-	c.Text = rapid.SampledFrom([]string{"", "", "", "escaped", "spaced", "raw"}).Draw(t, "text")
+	c.Text = rapid.SampledFrom([]string{"", "", "", "", "escaped", "spaced", "raw", "dup-null"}).Draw(t, "text")
 	return c
 }
 
@@ -828,6 +899,8 @@ func enumTamper(yield func(Case) bool) {
 				{Doc: d.Path, Actions: []Action{{Kind: "sign", Key: 0}}, Present: 0, Exec: exec, Text: "escaped"},
 				{Doc: d.Path, Actions: []Action{{Kind: "sign", Key: 0}}, Present: 0, Exec: exec, Text: "spaced"},
 				{Doc: d.Path, Actions: []Action{{Kind: "sign", Key: 0}}, Present: 0, Exec: exec, Text: "raw"},
+				{Doc: d.Path, Actions: []Action{{Kind: "sign", Key: 0}}, Present: 0, Exec: exec, Text: "dup-null"},
+				{Doc: d.Path, Actions: []Action{{Kind: "sign", Key: 0}, {Kind: "reparse"}, {Kind: "edit-doc", Arg: what, Val: "1"}}, Present: 0, Exec: exec},
 				{Doc: d.Path, Actions: []Action{{Kind: "sign", Key: 0}, {Kind: "edit-doc-recalc", Arg: what, Val: "1"}}, Present: 0, Exec: exec, Text: "escaped"},
 				{Doc: d.Path, Actions: []Action{{Kind: "sign", Key: 0}}, Present: 1, PresentForm: "no-kid", Exec: exec},
 				{Doc: d.Path, Actions: []Action{{Kind: "sign", Key: 0}}, Present: 0, PresentForm: "no-kid", Exec: exec},
